@@ -44,7 +44,9 @@ VReplace(e) == LET d == Docs[e.di]  sl == Slices[e.si] IN
          ELSE IF e.out # sp THEN "bad:TextNotMerged"
          ELSE IF Len(e.out) # Len(d) + SliceSize(sl) - (e.to - e.from) THEN "bad:SizeLaw"
          ELSE IF ~Valid(e.out) THEN "bad:ReturnedInvalid"
-         ELSE IF ~JoinsOK(d, e.from, e.to, sl) THEN "drift:JoinRuleNotApplied"
+         \* a close token closes a node of a particular type: a splice in which an open node is closed by the close token
+         \* of a node with incompatible content is not a well-formed tree, however valid the merged children are
+         ELSE IF ~JoinsOK(d, e.from, e.to, sl) THEN "bad:JoinRuleNotApplied"
          ELSE "ok"
     ELSE IF e.res.kind = "raise"
     THEN IF e.res.cls # "ReplaceError" THEN "bad:RaiseClass"
